@@ -215,6 +215,16 @@ var commonMW = append(make([]types.Middleware[*rig.H], 0, 4), tagMW("common"))
 // runInst builds one instance, mutates it and serves from it; everything it
 // touches belongs to it alone.
 func runInst(in Inst, tag string) *rig.Violation {
+	// what a caller may do with the method lists the package hands out: they are the caller's copies
+	for _, ms := range [][]string{mux.Methods(), mux.AnyMethods()} {
+		for i := range ms {
+			ms[i] = "SCRIBBLED-" + tag
+		}
+		_ = append(ms[:0], "X", "Y")
+	}
+	if got := mux.AnyMethods(); len(got) != 6 || !rig.EqualSets(got, ref.AnyMethods) {
+		return rig.Violf("instance-oracle", "%s: mux.AnyMethods() = %v after a caller wrote to an earlier result", tag, got)
+	}
 	switch in.Kind {
 	case "hosts":
 		hs := mux.NewHosts(in.Lock)
